@@ -1,3 +1,1297 @@
-From Coq Require Import List ZArith QArith Bool Lia.
+(* C17 -- proofs about C17_Model (centroid_com, centroid_quadratic's vertex formula,
+   centroid_sources).  The specification vocabulary used by C17_Properties.v is
+   defined here:
+
+     sumn n f              = sum_{i<n} f i
+     sum2 ny nx f          = sum_{y<ny} sum_{x<nx} f y x
+     rect ny nx im         : im has ny rows, each of length nx
+     pixd data y x         : pixel (row y, column x) of the data ([None] = non-finite)
+     pixm mask y x         : mask bit of that pixel ([false] when there is no mask)
+     weight data mask y x  : the pixel value if the pixel is unmasked and finite, else 0
+     com_spec ny nx w      : the intensity-weighted mean coordinate of the weights w,
+                             as the exact fraction (sum x*w / sum w, sum y*w / sum w)   *)
+From Coq Require Import List Arith ZArith QArith Bool Lia ZifyBool Permutation.
 From PV Require Import lib.Cases C17_Model.
 Import ListNotations.
+Open Scope Z_scope.
+
+(* ------------------------------------------------------------------ *)
+(* finite sums                                                          *)
+(* ------------------------------------------------------------------ *)
+Fixpoint sumn (n : nat) (f : nat -> Z) : Z :=
+  match n with O => 0 | S k => sumn k f + f k end.
+Definition sum2 (ny nx : nat) (f : nat -> nat -> Z) : Z :=
+  sumn ny (fun y => sumn nx (fun x => f y x)).
+
+Lemma sumn_ext n f g : (forall i, (i < n)%nat -> f i = g i) -> sumn n f = sumn n g.
+Proof.
+  induction n as [|n IH]; intros H; cbn [sumn]; [reflexivity|].
+  rewrite IH by (intros i Hi; apply H; lia). rewrite (H n) by lia. reflexivity.
+Qed.
+
+Lemma sumn_shift n f : sumn (S n) f = f O + sumn n (fun i => f (S i)).
+Proof.
+  induction n as [|n IH]; [cbn [sumn]; lia|].
+  change (sumn (S (S n)) f) with (sumn (S n) f + f (S n)). rewrite IH. cbn [sumn]. lia.
+Qed.
+
+Lemma sumn_add n f g : sumn n (fun i => f i + g i) = sumn n f + sumn n g.
+Proof. induction n as [|n IH]; cbn [sumn]; [reflexivity|rewrite IH; lia]. Qed.
+
+Lemma sumn_scale n c f : sumn n (fun i => c * f i) = c * sumn n f.
+Proof. induction n as [|n IH]; cbn [sumn]; [lia|rewrite IH; lia]. Qed.
+
+Lemma sumn_zero n f : (forall i, (i < n)%nat -> f i = 0) -> sumn n f = 0.
+Proof.
+  induction n as [|n IH]; intros H; cbn [sumn]; [reflexivity|].
+  rewrite IH by (intros i Hi; apply H; lia). rewrite (H n) by lia. reflexivity.
+Qed.
+
+Lemma sumn_rev n f : sumn n f = sumn n (fun i => f (n - 1 - i)%nat).
+Proof.
+  induction n as [|n IH]; [reflexivity|].
+  rewrite (sumn_shift n (fun i => f (S n - 1 - i)%nat)).
+  change (sumn (S n) f) with (sumn n f + f n). rewrite IH.
+  replace (S n - 1 - 0)%nat with n by lia.
+  rewrite Z.add_comm. f_equal. apply sumn_ext. intros i Hi. f_equal. lia.
+Qed.
+
+Lemma sumn_swap ny nx (f : nat -> nat -> Z) :
+  sumn ny (fun y => sumn nx (fun x => f y x)) = sumn nx (fun x => sumn ny (fun y => f y x)).
+Proof.
+  induction ny as [|ny IH]; cbn [sumn].
+  - symmetry. apply sumn_zero. reflexivity.
+  - rewrite IH, <- sumn_add. reflexivity.
+Qed.
+
+Lemma sumn_split a b f : sumn (a + b) f = sumn a f + sumn b (fun i => f (a + i)%nat).
+Proof.
+  induction b as [|b IH].
+  - rewrite Nat.add_0_r. cbn [sumn]. lia.
+  - rewrite Nat.add_succ_r. cbn [sumn]. rewrite IH. lia.
+Qed.
+
+Lemma sum2_ext ny nx f g :
+  (forall y x, (y < ny)%nat -> (x < nx)%nat -> f y x = g y x) -> sum2 ny nx f = sum2 ny nx g.
+Proof. intros H. apply sumn_ext. intros y Hy. apply sumn_ext. intros x Hx. auto. Qed.
+
+Lemma sum2_swap ny nx f : sum2 ny nx f = sum2 nx ny (fun x y => f y x).
+Proof. apply sumn_swap. Qed.
+
+Lemma sum2_scale ny nx c f : sum2 ny nx (fun y x => c * f y x) = c * sum2 ny nx f.
+Proof.
+  unfold sum2. rewrite <- sumn_scale. apply sumn_ext. intros y _. apply sumn_scale.
+Qed.
+
+Lemma sum2_add ny nx f g :
+  sum2 ny nx (fun y x => f y x + g y x) = sum2 ny nx f + sum2 ny nx g.
+Proof.
+  unfold sum2. rewrite <- sumn_add. apply sumn_ext. intros y _. apply sumn_add.
+Qed.
+
+(* ------------------------------------------------------------------ *)
+(* lists                                                                *)
+(* ------------------------------------------------------------------ *)
+Lemma zsum_cons a l : zsum (a :: l) = a + zsum l.
+Proof. reflexivity. Qed.
+
+Lemma zsum_sumn l : zsum l = sumn (length l) (fun i => nth i l 0).
+Proof.
+  induction l as [|a l IH]; [reflexivity|].
+  cbn [length]. rewrite sumn_shift, zsum_cons, IH. reflexivity.
+Qed.
+
+Lemma wsum_sumn l : forall i, wsum i l = sumn (length l) (fun j => (i + Z.of_nat j) * nth j l 0).
+Proof.
+  induction l as [|a l IH]; intros i; [reflexivity|].
+  cbn [length]. rewrite sumn_shift.
+  change (wsum i (a :: l)) with (i * a + wsum (i + 1) l). rewrite IH. cbn [nth].
+  f_equal; [lia|]. apply sumn_ext. intros j _. f_equal. lia.
+Qed.
+
+Lemma map_nth' {A B} (g : A -> B) l d d' n :
+  (n < length l)%nat -> nth n (map g l) d' = g (nth n l d).
+Proof.
+  intros H. rewrite (nth_indep _ d' (g d)) by (rewrite map_length; lia). apply map_nth.
+Qed.
+
+Lemma map2_length {A B C} (f : A -> B -> C) a b :
+  length (map2 f a b) = Nat.min (length a) (length b).
+Proof. revert b; induction a as [|x a IH]; intros [|y b]; cbn; auto. Qed.
+
+Lemma map2_nth {A B C} (f : A -> B -> C) a b n da db dc :
+  (n < length a)%nat -> (n < length b)%nat ->
+  nth n (map2 f a b) dc = f (nth n a da) (nth n b db).
+Proof.
+  revert b n; induction a as [|x a IH]; intros [|y b] n; cbn [length map2 nth]; try lia.
+  destruct n as [|n]; [reflexivity|]. intros Ha Hb. apply IH; lia.
+Qed.
+
+Lemma list_ext {A} (d : A) (a b : list A) :
+  length a = length b -> (forall i, (i < length a)%nat -> nth i a d = nth i b d) -> a = b.
+Proof.
+  revert b; induction a as [|x a IH]; intros [|y b] Hl H; cbn in Hl; try discriminate; [reflexivity|].
+  f_equal.
+  - apply (H O). cbn. lia.
+  - apply IH; [lia|]. intros i Hi. apply (H (S i)). cbn. lia.
+Qed.
+
+(* ------------------------------------------------------------------ *)
+(* rectangular images                                                   *)
+(* ------------------------------------------------------------------ *)
+Definition rect {A} (ny nx : nat) (im : img A) : Prop :=
+  length im = ny /\ forall y, (y < ny)%nat -> length (nth y im []) = nx.
+Definition mask_rect (ny nx : nat) (mask : option (img bool)) : Prop :=
+  match mask with None => True | Some m => rect ny nx m end.
+
+Definition pixd (data : img (option Z)) (y x : nat) : option Z := nth x (nth y data []) None.
+Definition pixm (mask : option (img bool)) (y x : nat) : bool :=
+  match mask with None => false | Some m => nth x (nth y m []) false end.
+(* value of an unmasked finite pixel, 0 for every other pixel *)
+Definition weight (data : img (option Z)) (mask : option (img bool)) (y x : nat) : Z :=
+  if pixm mask y x then 0 else match pixd data y x with Some v => v | None => 0 end.
+
+Lemma weight_fill1 data mask y x : weight data mask y x = fill1 (pixd data y x) (pixm mask y x).
+Proof. reflexivity. Qed.
+
+Lemma weight_outside data mask ny nx y x :
+  rect ny nx data -> (ny <= y)%nat \/ (nx <= x)%nat -> weight data mask y x = 0.
+Proof.
+  intros [Hl Hr] H. unfold weight. destruct (pixm mask y x); [reflexivity|].
+  unfold pixd. destruct (Nat.lt_ge_cases y ny) as [Hy|Hy].
+  - rewrite (nth_overflow (nth y data [])); [reflexivity|]. rewrite Hr by lia. lia.
+  - rewrite (nth_overflow data) by lia. destruct x; reflexivity.
+Qed.
+
+(* same_shape is shape equality *)
+Lemma rows_same {A B} (a : img A) (b : img B) :
+  length a = length b ->
+  (forallb (fun x => x) (map2 (fun r s => (length r =? length s)%nat) a b) = true <->
+   forall y, (y < length a)%nat -> length (nth y a []) = length (nth y b [])).
+Proof.
+  revert b; induction a as [|r a IH]; intros [|s b] Hl; cbn in Hl; try discriminate.
+  - cbn. split; [intros _ y Hy; lia|reflexivity].
+  - cbn [map2 forallb length]. rewrite andb_true_iff, Nat.eqb_eq, IH by lia. split.
+    + intros [H0 H] [|y] Hy; cbn [nth]; [exact H0|apply H; lia].
+    + intros H. split; [apply (H O); lia|]. intros y Hy. apply (H (S y)). lia.
+Qed.
+
+Lemma same_shape_spec {A B} (a : img A) (b : img B) :
+  same_shape a b = true <->
+  length a = length b /\ forall y, (y < length a)%nat -> length (nth y a []) = length (nth y b []).
+Proof.
+  unfold same_shape. rewrite andb_true_iff, Nat.eqb_eq. split.
+  - intros [Hl H]. split; [exact Hl|]. apply rows_same; assumption.
+  - intros [Hl H]. split; [exact Hl|]. apply rows_same; assumption.
+Qed.
+
+Lemma same_shape_rect {A B} ny nx (a : img A) (b : img B) :
+  rect ny nx a -> rect ny nx b -> same_shape a b = true.
+Proof.
+  intros [Ha Ra] [Hb Rb]. apply same_shape_spec. split; [lia|].
+  intros y Hy. rewrite Ra, Rb by lia. reflexivity.
+Qed.
+
+(* ------------------------------------------------------------------ *)
+(* centroid_com is the weighted mean                                    *)
+(* ------------------------------------------------------------------ *)
+Lemma filled_rect data mask ny nx :
+  rect ny nx data -> mask_rect ny nx mask -> rect ny nx (filled data mask).
+Proof.
+  intros [Hl Hr] Hm. destruct mask as [m|]; cbn [filled].
+  - destruct Hm as [Ml Mr]. split.
+    + rewrite map2_length. lia.
+    + intros y Hy. rewrite (map2_nth _ _ _ _ [] []) by lia.
+      rewrite map2_length, Hr, Mr by lia. lia.
+  - split; [rewrite map_length; exact Hl|].
+    intros y Hy. rewrite (map_nth' _ _ []) by lia. rewrite map_length. auto.
+Qed.
+
+Lemma filled_nth data mask ny nx y x :
+  rect ny nx data -> mask_rect ny nx mask -> (y < ny)%nat -> (x < nx)%nat ->
+  nth x (nth y (filled data mask) []) 0 = weight data mask y x.
+Proof.
+  intros [Hl Hr] Hm Hy Hx. unfold weight, pixd, pixm. destruct mask as [m|]; cbn [filled].
+  - destruct Hm as [Ml Mr].
+    rewrite (map2_nth _ _ _ _ [] []) by lia.
+    rewrite (map2_nth _ _ _ _ None false) by (rewrite ?Hr, ?Mr by lia; lia).
+    reflexivity.
+  - rewrite (map_nth' _ _ []) by lia. rewrite (map_nth' _ _ None) by (rewrite Hr by lia; lia).
+    reflexivity.
+Qed.
+
+Lemma img_total (f : img Z) ny nx :
+  rect ny nx f -> zsum (map zsum f) = sum2 ny nx (fun y x => nth x (nth y f []) 0).
+Proof.
+  intros [Hl Hr]. rewrite zsum_sumn, map_length, Hl. apply sumn_ext. intros y Hy.
+  rewrite (map_nth' _ _ []) by lia. rewrite zsum_sumn, Hr by lia. reflexivity.
+Qed.
+
+Lemma img_xmoment (f : img Z) ny nx :
+  rect ny nx f ->
+  zsum (map (wsum 0) f) = sum2 ny nx (fun y x => Z.of_nat x * nth x (nth y f []) 0).
+Proof.
+  intros [Hl Hr]. rewrite zsum_sumn, map_length, Hl. apply sumn_ext. intros y Hy.
+  rewrite (map_nth' _ _ []) by lia. rewrite wsum_sumn, Hr by lia. reflexivity.
+Qed.
+
+Lemma img_ymoment (f : img Z) ny nx :
+  rect ny nx f ->
+  wsum 0 (map zsum f) = sum2 ny nx (fun y x => Z.of_nat y * nth x (nth y f []) 0).
+Proof.
+  intros [Hl Hr]. rewrite wsum_sumn, map_length, Hl. apply sumn_ext. intros y Hy.
+  rewrite (map_nth' _ _ []) by lia. rewrite zsum_sumn, Hr by lia.
+  rewrite Z.add_0_l, sumn_scale. reflexivity.
+Qed.
+
+Definition com_spec (ny nx : nat) (w : nat -> nat -> Z) : com_res :=
+  let T := sum2 ny nx w in
+  if T =? 0 then ComNaN
+  else ComAt (sum2 ny nx (fun y x => Z.of_nat x * w y x))
+             (sum2 ny nx (fun y x => Z.of_nat y * w y x)) T.
+
+Lemma com_spec_ext ny nx w w' :
+  (forall y x, (y < ny)%nat -> (x < nx)%nat -> w y x = w' y x) ->
+  com_spec ny nx w = com_spec ny nx w'.
+Proof.
+  intros H. unfold com_spec.
+  rewrite (sum2_ext ny nx w w') by exact H.
+  rewrite (sum2_ext ny nx (fun y x => Z.of_nat x * w y x) (fun y x => Z.of_nat x * w' y x))
+    by (intros; rewrite H by lia; reflexivity).
+  rewrite (sum2_ext ny nx (fun y x => Z.of_nat y * w y x) (fun y x => Z.of_nat y * w' y x))
+    by (intros; rewrite H by lia; reflexivity).
+  reflexivity.
+Qed.
+
+Lemma com_weighted_mean data mask ny nx :
+  rect ny nx data -> mask_rect ny nx mask ->
+  com data mask = com_spec ny nx (weight data mask).
+Proof.
+  intros Hd Hm. unfold com.
+  assert (Hs : match mask with Some m => negb (same_shape data m) | None => false end = false).
+  { destruct mask as [m|]; [|reflexivity]. rewrite (same_shape_rect ny nx) by assumption. reflexivity. }
+  rewrite Hs. pose proof (filled_rect data mask ny nx Hd Hm) as Hf.
+  cbv zeta. rewrite (img_total _ ny nx Hf), (img_xmoment _ ny nx Hf), (img_ymoment _ ny nx Hf).
+  unfold com_spec. cbv zeta.
+  rewrite (sum2_ext ny nx _ (weight data mask))
+    by (intros; apply (filled_nth data mask ny nx); assumption).
+  rewrite (sum2_ext ny nx (fun y x => Z.of_nat x * _) (fun y x => Z.of_nat x * weight data mask y x))
+    by (intros; rewrite (filled_nth data mask ny nx) by assumption; reflexivity).
+  rewrite (sum2_ext ny nx (fun y x => Z.of_nat y * _) (fun y x => Z.of_nat y * weight data mask y x))
+    by (intros; rewrite (filled_nth data mask ny nx) by assumption; reflexivity).
+  reflexivity.
+Qed.
+
+Lemma com_raise_iff data mask :
+  com data mask = ComRaise <-> exists m, mask = Some m /\ same_shape data m = false.
+Proof.
+  unfold com. destruct mask as [m|].
+  - destruct (same_shape data m) eqn:E; cbn [negb].
+    + split; [|intros [m' [[= <-] H]]; congruence].
+      destruct (_ =? 0); discriminate.
+    + split; [intros _; exists m; auto|reflexivity].
+  - split; [destruct (_ =? 0); discriminate|intros [m [H _]]; discriminate].
+Qed.
+
+(* ------------------------------------------------------------------ *)
+(* masked (and non-finite) pixel values are ignored                     *)
+(* ------------------------------------------------------------------ *)
+Lemma com_masked_values_ignored data data' m ny nx :
+  rect ny nx data -> rect ny nx data' -> rect ny nx m ->
+  (forall y x, (y < ny)%nat -> (x < nx)%nat -> pixm (Some m) y x = false ->
+               pixd data y x = pixd data' y x) ->
+  com data (Some m) = com data' (Some m).
+Proof.
+  intros Hd Hd' Hm H.
+  rewrite (com_weighted_mean data (Some m) ny nx), (com_weighted_mean data' (Some m) ny nx)
+    by assumption.
+  apply com_spec_ext. intros y x Hy Hx. unfold weight.
+  destruct (pixm (Some m) y x) eqn:E; [reflexivity|]. rewrite H by assumption. reflexivity.
+Qed.
+
+(* a non-finite pixel counts exactly like a masked one *)
+Lemma com_nonfinite_as_masked data mask ny nx y x :
+  rect ny nx data -> mask_rect ny nx mask -> pixd data y x = None -> weight data mask y x = 0.
+Proof. intros _ _ H. unfold weight. rewrite H. destruct (pixm mask y x); reflexivity. Qed.
+
+(* ------------------------------------------------------------------ *)
+(* flips, transposition, rescaling                                      *)
+(* ------------------------------------------------------------------ *)
+Definition flipx {A} (im : img A) : img A := map (@rev A) im.         (* data[:, ::-1] *)
+Definition flipy {A} (im : img A) : img A := rev im.                  (* data[::-1, :] *)
+Definition transpose {A} (d : A) (nx : nat) (im : img A) : img A :=   (* data.T *)
+  map (fun x => map (fun r => nth x r d) im) (seq 0 nx).
+Definition scale (k : Z) (data : img (option Z)) : img (option Z) :=  (* k * data *)
+  map (map (option_map (Z.mul k))) data.
+
+Lemma flipx_rect {A} ny nx (im : img A) : rect ny nx im -> rect ny nx (flipx im).
+Proof.
+  intros [Hl Hr]. split; [unfold flipx; rewrite map_length; exact Hl|].
+  intros y Hy. unfold flipx. rewrite (map_nth' _ _ []) by lia. rewrite rev_length. auto.
+Qed.
+Lemma flipx_nth {A} ny nx (im : img A) d y x :
+  rect ny nx im -> (y < ny)%nat -> (x < nx)%nat ->
+  nth x (nth y (flipx im) []) d = nth (nx - 1 - x) (nth y im []) d.
+Proof.
+  intros [Hl Hr] Hy Hx. unfold flipx. rewrite (map_nth' _ _ []) by lia.
+  rewrite rev_nth by (rewrite Hr by lia; lia). rewrite Hr by lia. f_equal. lia.
+Qed.
+Lemma flipy_rect {A} ny nx (im : img A) : rect ny nx im -> rect ny nx (flipy im).
+Proof.
+  intros [Hl Hr]. split; [unfold flipy; rewrite rev_length; exact Hl|].
+  intros y Hy. unfold flipy. rewrite rev_nth by lia. apply Hr. lia.
+Qed.
+Lemma flipy_nth {A} ny nx (im : img A) y :
+  rect ny nx im -> (y < ny)%nat -> nth y (flipy im) [] = nth (ny - 1 - y) im [].
+Proof.
+  intros [Hl Hr] Hy. unfold flipy. rewrite rev_nth by lia. f_equal. lia.
+Qed.
+
+Lemma map_seq_nth {B} (g : nat -> B) n d i : (i < n)%nat -> nth i (map g (seq 0 n)) d = g i.
+Proof.
+  intros H. rewrite (map_nth' _ _ O) by (rewrite seq_length; lia). rewrite seq_nth by lia. reflexivity.
+Qed.
+Lemma transpose_rect {A} (d : A) ny nx (im : img A) :
+  rect ny nx im -> rect nx ny (transpose d nx im).
+Proof.
+  intros [Hl Hr]. unfold transpose. split; [rewrite map_length, seq_length; reflexivity|].
+  intros x Hx. rewrite map_seq_nth by lia. rewrite map_length. exact Hl.
+Qed.
+Lemma transpose_nth {A} (d : A) ny nx (im : img A) y x :
+  rect ny nx im -> (y < ny)%nat -> (x < nx)%nat ->
+  nth y (nth x (transpose d nx im) []) d = nth x (nth y im []) d.
+Proof.
+  intros [Hl Hr] Hy Hx. unfold transpose. rewrite map_seq_nth by lia.
+  rewrite (map_nth' _ _ []) by lia. reflexivity.
+Qed.
+
+Definition flipx_mask (m : option (img bool)) := option_map (@flipx bool) m.
+Definition flipy_mask (m : option (img bool)) := option_map (@flipy bool) m.
+Definition transpose_mask nx (m : option (img bool)) := option_map (transpose false nx) m.
+
+(* what the transformations do to a centroid given as exact fractions *)
+Definition mirror_x (nx : nat) (r : com_res) : com_res :=
+  match r with ComAt xn yn t => ComAt ((Z.of_nat nx - 1) * t - xn) yn t | r0 => r0 end.
+Definition mirror_y (ny : nat) (r : com_res) : com_res :=
+  match r with ComAt xn yn t => ComAt xn ((Z.of_nat ny - 1) * t - yn) t | r0 => r0 end.
+Definition swap_xy (r : com_res) : com_res :=
+  match r with ComAt xn yn t => ComAt yn xn t | r0 => r0 end.
+Definition scale_res (k : Z) (r : com_res) : com_res :=
+  match r with ComAt xn yn t => ComAt (k * xn) (k * yn) (k * t) | r0 => r0 end.
+
+Lemma sumn_mirror n (w : nat -> Z) :
+  sumn n (fun x => Z.of_nat x * w (n - 1 - x)%nat)
+  = (Z.of_nat n - 1) * sumn n w - sumn n (fun x => Z.of_nat x * w x).
+Proof.
+  rewrite (sumn_rev n (fun x => Z.of_nat x * w (n - 1 - x)%nat)).
+  rewrite <- sumn_scale.
+  assert (E : forall a b c, a + c = b -> a = b - c) by (intros; lia).
+  apply E. rewrite <- sumn_add. apply sumn_ext. intros i Hi.
+  replace (n - 1 - (n - 1 - i))%nat with i by lia.
+  replace (Z.of_nat (n - 1 - i)) with (Z.of_nat n - 1 - Z.of_nat i) by lia. ring.
+Qed.
+
+Lemma sumn_reflect n (w : nat -> Z) : sumn n (fun x => w (n - 1 - x)%nat) = sumn n w.
+Proof. symmetry. apply sumn_rev. Qed.
+
+Lemma com_flipx data mask ny nx :
+  rect ny nx data -> mask_rect ny nx mask ->
+  com (flipx data) (flipx_mask mask) = mirror_x nx (com data mask).
+Proof.
+  intros Hd Hm.
+  assert (Hm' : mask_rect ny nx (flipx_mask mask))
+    by (destruct mask; [apply flipx_rect; exact Hm|exact I]).
+  rewrite (com_weighted_mean _ _ ny nx (flipx_rect _ _ _ Hd) Hm'), (com_weighted_mean _ _ ny nx Hd Hm).
+  rewrite (com_spec_ext ny nx _ (fun y x => weight data mask y (nx - 1 - x)%nat)).
+  2:{ intros y x Hy Hx. unfold weight, pixd, pixm.
+      rewrite (flipx_nth ny nx) by assumption.
+      destruct mask as [m|]; cbn [flipx_mask option_map]; [|reflexivity].
+      rewrite (flipx_nth ny nx) by assumption. reflexivity. }
+  unfold com_spec, sum2. cbv zeta.
+  rewrite (sumn_ext ny (fun y => sumn nx (fun x => weight data mask y (nx - 1 - x)%nat))
+                       (fun y => sumn nx (fun x => weight data mask y x)))
+    by (intros; apply sumn_reflect).
+  rewrite (sumn_ext ny (fun y => sumn nx (fun x => Z.of_nat y * weight data mask y (nx - 1 - x)%nat))
+                       (fun y => sumn nx (fun x => Z.of_nat y * weight data mask y x)))
+    by (intros y _; apply (sumn_reflect nx (fun x => Z.of_nat y * weight data mask y x))).
+  rewrite (sumn_ext ny (fun y => sumn nx (fun x => Z.of_nat x * weight data mask y (nx - 1 - x)%nat))
+                       (fun y => (Z.of_nat nx - 1) * sumn nx (fun x => weight data mask y x)
+                                 + -1 * sumn nx (fun x => Z.of_nat x * weight data mask y x)))
+    by (intros y _; etransitivity; [apply (sumn_mirror nx (fun x => weight data mask y x))|];
+        cbv beta; lia).
+  rewrite sumn_add, !sumn_scale.
+  destruct (_ =? 0); cbn [mirror_x]; [reflexivity|]. f_equal; lia.
+Qed.
+
+Lemma com_flipy data mask ny nx :
+  rect ny nx data -> mask_rect ny nx mask ->
+  com (flipy data) (flipy_mask mask) = mirror_y ny (com data mask).
+Proof.
+  intros Hd Hm.
+  assert (Hm' : mask_rect ny nx (flipy_mask mask))
+    by (destruct mask; [apply flipy_rect; exact Hm|exact I]).
+  rewrite (com_weighted_mean _ _ ny nx (flipy_rect _ _ _ Hd) Hm'), (com_weighted_mean _ _ ny nx Hd Hm).
+  rewrite (com_spec_ext ny nx _ (fun y x => weight data mask (ny - 1 - y)%nat x)).
+  2:{ intros y x Hy Hx. unfold weight, pixd, pixm.
+      rewrite (flipy_nth ny nx) by assumption.
+      destruct mask as [m|]; cbn [flipy_mask option_map]; [|reflexivity].
+      rewrite (flipy_nth ny nx) by assumption. reflexivity. }
+  unfold com_spec, sum2. cbv zeta.
+  rewrite (sumn_reflect ny (fun y => sumn nx (fun x => weight data mask y x))).
+  rewrite (sumn_reflect ny (fun y => sumn nx (fun x => Z.of_nat x * weight data mask y x))).
+  rewrite (sumn_ext ny (fun y => sumn nx (fun x => Z.of_nat y * weight data mask (ny - 1 - y)%nat x))
+                       (fun y => Z.of_nat y * (fun y' => sumn nx (fun x => weight data mask y' x)) (ny - 1 - y)%nat))
+    by (intros y _; rewrite <- sumn_scale; reflexivity).
+  rewrite (sumn_mirror ny (fun y' => sumn nx (fun x => weight data mask y' x))).
+  rewrite (sumn_ext ny (fun y => Z.of_nat y * sumn nx (fun x => weight data mask y x))
+                       (fun y => sumn nx (fun x => Z.of_nat y * weight data mask y x)))
+    by (intros y _; rewrite sumn_scale; reflexivity).
+  destruct (_ =? 0); reflexivity.
+Qed.
+
+Lemma com_transpose data mask ny nx :
+  rect ny nx data -> mask_rect ny nx mask ->
+  com (transpose None nx data) (transpose_mask nx mask) = swap_xy (com data mask).
+Proof.
+  intros Hd Hm.
+  assert (Hm' : mask_rect nx ny (transpose_mask nx mask))
+    by (destruct mask; [apply transpose_rect; exact Hm|exact I]).
+  rewrite (com_weighted_mean _ _ nx ny (transpose_rect _ _ _ _ Hd) Hm'), (com_weighted_mean _ _ ny nx Hd Hm).
+  rewrite (com_spec_ext nx ny _ (fun x y => weight data mask y x)).
+  2:{ intros x y Hx Hy. unfold weight, pixd, pixm.
+      rewrite (transpose_nth None ny nx) by assumption.
+      destruct mask as [m|]; cbn [transpose_mask option_map]; [|reflexivity].
+      rewrite (transpose_nth false ny nx) by assumption. reflexivity. }
+  unfold com_spec. cbv zeta.
+  rewrite <- (sum2_swap ny nx (weight data mask)).
+  rewrite <- (sum2_swap ny nx (fun y x => Z.of_nat x * weight data mask y x)).
+  rewrite <- (sum2_swap ny nx (fun y x => Z.of_nat y * weight data mask y x)).
+  destruct (_ =? 0); reflexivity.
+Qed.
+
+Lemma scale_rect k ny nx data : rect ny nx data -> rect ny nx (scale k data).
+Proof.
+  intros [Hl Hr]. unfold scale. split; [rewrite map_length; exact Hl|].
+  intros y Hy. rewrite (map_nth' _ _ []) by lia. rewrite map_length. auto.
+Qed.
+
+Lemma com_scale k data mask ny nx :
+  k <> 0 -> rect ny nx data -> mask_rect ny nx mask ->
+  com (scale k data) mask = scale_res k (com data mask).
+Proof.
+  intros Hk Hd Hm.
+  rewrite (com_weighted_mean _ _ ny nx (scale_rect k _ _ _ Hd) Hm), (com_weighted_mean _ _ ny nx Hd Hm).
+  rewrite (com_spec_ext ny nx _ (fun y x => k * weight data mask y x)).
+  2:{ intros y x Hy Hx. unfold weight, pixd, scale. destruct Hd as [Hl Hr].
+      rewrite (map_nth' _ _ []) by lia. rewrite (map_nth' _ _ None) by (rewrite Hr by lia; lia).
+      destruct (pixm mask y x); [lia|]. destruct (nth x (nth y data []) None); cbn [option_map]; lia. }
+  unfold com_spec. cbv zeta.
+  rewrite (sum2_ext ny nx (fun y x => Z.of_nat x * (k * weight data mask y x))
+                          (fun y x => k * (Z.of_nat x * weight data mask y x))) by (intros; lia).
+  rewrite (sum2_ext ny nx (fun y x => Z.of_nat y * (k * weight data mask y x))
+                          (fun y x => k * (Z.of_nat y * weight data mask y x))) by (intros; lia).
+  rewrite !sum2_scale.
+  destruct (sum2 ny nx (weight data mask) =? 0) eqn:E.
+  - apply Z.eqb_eq in E. rewrite E, Z.mul_0_r. reflexivity.
+  - apply Z.eqb_neq in E. destruct (k * _ =? 0) eqn:E'; [apply Z.eqb_eq in E'; nia|]. reflexivity.
+Qed.
+
+(* two exact-fraction results denote the same point *)
+Definition same_centroid (a b : com_res) : Prop :=
+  match a, b with
+  | ComRaise, ComRaise => True
+  | ComNaN, ComNaN => True
+  | ComAt xn yn t, ComAt xn' yn' t' => xn * t' = xn' * t /\ yn * t' = yn' * t
+  | _, _ => False
+  end.
+
+Lemma scale_res_same k r : k <> 0 -> same_centroid (scale_res k r) r.
+Proof. intros Hk. destruct r; cbn; auto. split; lia. Qed.
+
+(* rescaling by a positive rational p/q (q * data' = p * data pixelwise) *)
+Lemma com_scale_rational p q data data' mask ny nx :
+  p <> 0 -> q <> 0 -> rect ny nx data -> rect ny nx data' -> mask_rect ny nx mask ->
+  scale q data' = scale p data ->
+  same_centroid (com data' mask) (com data mask).
+Proof.
+  intros Hp Hq Hd Hd' Hm E.
+  pose proof (com_scale q data' mask ny nx Hq Hd' Hm) as H1.
+  pose proof (com_scale p data mask ny nx Hp Hd Hm) as H2.
+  rewrite E, H2 in H1.
+  destruct (com data' mask) as [| |xn' yn' t'] eqn:E1, (com data mask) as [| |xn yn t] eqn:E2;
+    cbn in H1 |- *; try discriminate; auto.
+  injection H1 as Hx Hy Ht.
+  split; apply (Z.mul_reg_l _ _ q Hq).
+  - replace (q * (xn' * t)) with ((q * xn') * t) by ring. rewrite <- Hx.
+    replace (q * (xn * t')) with (xn * (q * t')) by ring. rewrite <- Ht. ring.
+  - replace (q * (yn' * t)) with ((q * yn') * t) by ring. rewrite <- Hy.
+    replace (q * (yn * t')) with (yn * (q * t')) by ring. rewrite <- Ht. ring.
+Qed.
+
+(* ------------------------------------------------------------------ *)
+(* point-symmetric sources                                              *)
+(* ------------------------------------------------------------------ *)
+(* the weights as a function on Z x Z: zero outside the image *)
+Definition wZ (data : img (option Z)) (mask : option (img bool)) (y x : Z) : Z :=
+  if (y <? 0) || (x <? 0) then 0 else weight data mask (Z.to_nat y) (Z.to_nat x).
+(* invariance under the point reflection through (ax/2, ay/2) *)
+Definition point_symmetric data mask (ay ax : Z) : Prop :=
+  forall y x : Z, wZ data mask y x = wZ data mask (ay - y) (ax - x).
+
+Lemma wZ_of_nat data mask y x : wZ data mask (Z.of_nat y) (Z.of_nat x) = weight data mask y x.
+Proof.
+  unfold wZ. destruct (Z.ltb_spec (Z.of_nat y) 0); [lia|]. destruct (Z.ltb_spec (Z.of_nat x) 0); [lia|].
+  cbn [orb]. rewrite !Nat2Z.id. reflexivity.
+Qed.
+
+Lemma wZ_outside data mask ny nx y x :
+  rect ny nx data -> y < 0 \/ Z.of_nat ny <= y \/ x < 0 \/ Z.of_nat nx <= x -> wZ data mask y x = 0.
+Proof.
+  intros Hd H. unfold wZ.
+  destruct (Z.ltb_spec y 0); [reflexivity|]. destruct (Z.ltb_spec x 0); [reflexivity|]. cbn [orb].
+  apply (weight_outside data mask ny nx); [exact Hd|lia].
+Qed.
+
+Definition sumZ (lo : Z) (n : nat) (F : Z -> Z) : Z := sumn n (fun i => F (lo + Z.of_nat i)).
+
+Lemma sumZ_reflect a lo n F :
+  sumZ lo n F = sumZ (a - lo - Z.of_nat n + 1) n (fun j => F (a - j)).
+Proof.
+  unfold sumZ. rewrite sumn_rev. apply sumn_ext. intros i Hi. f_equal. lia.
+Qed.
+
+Lemma sumZ_window lo n lo' n' F :
+  (forall j, j < lo \/ lo + Z.of_nat n <= j -> F j = 0) ->
+  lo' <= lo -> lo + Z.of_nat n <= lo' + Z.of_nat n' -> sumZ lo' n' F = sumZ lo n F.
+Proof.
+  intros H0 Hlo Hhi. unfold sumZ.
+  set (a := Z.to_nat (lo - lo')). set (b := (n' - a - n)%nat).
+  replace n' with (a + (n + b))%nat by lia. rewrite !sumn_split.
+  rewrite (sumn_zero a) by (intros i Hi; apply H0; lia).
+  rewrite (sumn_zero b) by (intros i Hi; apply H0; lia).
+  rewrite Z.add_0_l, Z.add_0_r. apply sumn_ext. intros i Hi. f_equal. lia.
+Qed.
+
+Lemma sumZ_image (F : Z -> Z) (n : nat) L N :
+  (forall j, j < 0 \/ Z.of_nat n <= j -> F j = 0) -> L <= 0 -> Z.of_nat n <= L + Z.of_nat N ->
+  sumn n (fun i => F (Z.of_nat i)) = sumZ L N F.
+Proof.
+  intros H0 HL HN. rewrite (sumZ_window 0 n L N F) by (auto; lia). reflexivity.
+Qed.
+
+Lemma sym_window (a : Z) (n : nat) :
+  exists L N, L <= 0 /\ Z.of_nat n <= L + Z.of_nat N /\ a - L - Z.of_nat N + 1 = L.
+Proof.
+  exists (Z.min 0 (a - Z.of_nat n + 1)), (Z.to_nat (a - 2 * Z.min 0 (a - Z.of_nat n + 1) + 1)). lia.
+Qed.
+
+Lemma com_point_symmetric data mask ny nx ay ax xn yn t :
+  rect ny nx data -> mask_rect ny nx mask -> point_symmetric data mask ay ax ->
+  com data mask = ComAt xn yn t -> 2 * xn = ax * t /\ 2 * yn = ay * t.
+Proof.
+  intros Hd Hm Hs Hc. rewrite (com_weighted_mean _ _ ny nx Hd Hm) in Hc.
+  unfold com_spec in Hc. cbv zeta in Hc. destruct (_ =? 0); [discriminate|].
+  injection Hc as Ex Ey Et.
+  destruct (sym_window ax nx) as (Lx & Nx & HLx & HNx & HSx).
+  destruct (sym_window ay ny) as (Ly & Ny & HLy & HNy & HSy).
+  set (W := wZ data mask) in *.
+  set (S := fun G : Z -> Z -> Z =>
+              sumZ Ly Ny (fun y => sumZ Lx Nx (fun x => G y x * W y x))).
+  assert (A : forall G, sum2 ny nx (fun y x => G (Z.of_nat y) (Z.of_nat x) * weight data mask y x) = S G).
+  { intros G. unfold S, sum2.
+    rewrite <- (sumZ_image (fun y => sumZ Lx Nx (fun x => G y x * W y x)) ny Ly Ny); [|  |exact HLy|exact HNy].
+    - apply sumn_ext. intros y Hy.
+      rewrite <- (sumZ_image (fun x => G (Z.of_nat y) x * W (Z.of_nat y) x) nx Lx Nx); [| |exact HLx|exact HNx].
+      + apply sumn_ext. intros x Hx'. unfold W. rewrite wZ_of_nat. reflexivity.
+      + intros j Hj. unfold W. rewrite (wZ_outside data mask ny nx) by (auto; lia). lia.
+    - intros j Hj. apply sumn_zero. intros i Hi. unfold W.
+      rewrite (wZ_outside data mask ny nx) by (auto; lia). lia. }
+  assert (B : forall G, S G = S (fun y x => G (ay - y) (ax - x))).
+  { intros G. unfold S. rewrite (sumZ_reflect ay Ly Ny), HSy. unfold sumZ at 1 3.
+    apply sumn_ext. intros i Hi. rewrite (sumZ_reflect ax Lx Nx), HSx. unfold sumZ.
+    apply sumn_ext. intros j Hj. f_equal. unfold W. symmetry. apply Hs. }
+  assert (Lin : forall G G' c, (forall y x, G y x + G' y x = c) -> S G + S G' = c * S (fun _ _ => 1)).
+  { intros G G' c HG. unfold S, sumZ. rewrite <- sumn_scale, <- sumn_add. apply sumn_ext. intros i Hi.
+    rewrite <- sumn_scale, <- sumn_add. apply sumn_ext. intros j Hj.
+    rewrite <- (HG (Ly + Z.of_nat i) (Lx + Z.of_nat j)). ring. }
+  assert (T1 : t = S (fun _ _ => 1)).
+  { rewrite <- (A (fun _ _ => 1)), <- Et. apply sum2_ext. intros. lia. }
+  split.
+  - assert (E : xn = S (fun _ x => x)) by (rewrite <- (A (fun _ x => x)); symmetry; exact Ex).
+    pose proof (B (fun _ x => x)) as E2. cbv beta in E2.
+    pose proof (Lin (fun _ x => x) (fun _ x => ax - x) ax) as E3. rewrite <- E2, <- E, <- T1 in E3.
+    rewrite <- E3 by (intros; lia). lia.
+  - assert (E : yn = S (fun y _ => y)) by (rewrite <- (A (fun y _ => y)); symmetry; exact Ey).
+    pose proof (B (fun y _ => y)) as E2. cbv beta in E2.
+    pose proof (Lin (fun y _ => y) (fun y _ => ay - y) ay) as E3. rewrite <- E2, <- E, <- T1 in E3.
+    rewrite <- E3 by (intros; lia). lia.
+Qed.
+
+(* ------------------------------------------------------------------ *)
+(* centroid_sources acts per source                                     *)
+(* ------------------------------------------------------------------ *)
+Fixpoint all_some {A} (l : list (option A)) : option (list A) :=
+  match l with
+  | [] => Some []
+  | None :: _ => None
+  | Some a :: r => match all_some r with Some out => Some (a :: out) | None => None end
+  end.
+
+Lemma all_some_Forall2 {A} (l : list (option A)) out :
+  all_some l = Some out <-> Forall2 (fun o r => o = Some r) l out.
+Proof.
+  revert out; induction l as [|[a|] l IH]; intros out; cbn [all_some].
+  - split; [intros [= <-]; constructor|intros H; inversion H; reflexivity].
+  - destruct (all_some l) as [o|] eqn:E.
+    + split.
+      * intros [= <-]. constructor; [reflexivity|]. apply IH. reflexivity.
+      * intros H. inversion H as [|? r ? out' H1 H2]; subst. injection H1 as <-.
+        apply IH in H2. injection H2 as <-. reflexivity.
+    + split; [discriminate|]. intros H. inversion H as [|? r ? out' H1 H2]; subst.
+      apply IH in H2. discriminate.
+  - split; [discriminate|]. intros H. inversion H as [|? r ? out' H1 H2]; subst. discriminate.
+Qed.
+
+Section SourcesProofs.
+  Variables E O R : Type.
+  Variable shift : R -> Z -> Z -> R.
+  Variable nan : R.
+  Notation cfun := (@cfun E O R).
+  Notation kwargs := (@kwargs E O).
+  Notation per_source := (@C17_Model.per_source E O R shift nan).
+  Notation sources := (@C17_Model.sources E O R shift nan).
+  Notation sources_unrepaired := (@C17_Model.sources_unrepaired E O R shift nan).
+
+  (* one source with an already filtered keyword dictionary *)
+  Definition one (f : cfun) (ev : env) (kw : kwargs) (p : Q * Q) : option R :=
+    match prepare ev kw p with
+    | None => None
+    | Some (a, off, _) => Some (call shift nan f a off)
+    end.
+
+  Lemma per_source_one f ev kw p : per_source f ev kw p = one f ev (filter_kwargs f kw) p.
+  Proof. reflexivity. Qed.
+
+  Lemma loop_repaired f ev kw ps :
+    loop shift nan false f ev kw ps = all_some (map (one f ev kw) ps).
+  Proof.
+    induction ps as [|p ps IH]; [reflexivity|].
+    cbn [loop map all_some]. unfold one at 1.
+    destruct (prepare ev kw p) as [[[a off] kw']|]; [|reflexivity].
+    rewrite IH. reflexivity.
+  Qed.
+
+  (* the complete description of the repaired centroid_sources *)
+  Lemma sources_char f ev kw ps :
+    sources f ev kw ps =
+    match ps with
+    | [] => None
+    | _ => if forallb (pos_ok ev) ps then all_some (map (per_source f ev kw) ps) else None
+    end.
+  Proof.
+    unfold C17_Model.sources, sources_gen. destruct ps as [|p ps]; [reflexivity|].
+    rewrite loop_repaired. reflexivity.
+  Qed.
+
+  Lemma sources_per_source f ev kw ps out :
+    sources f ev kw ps = Some out -> Forall2 (fun p r => per_source f ev kw p = Some r) ps out.
+  Proof.
+    rewrite sources_char. destruct ps as [|p ps]; [discriminate|].
+    destruct (forallb _ _); [|discriminate]. intros H. apply all_some_Forall2 in H.
+    remember (p :: ps) as l eqn:El. clear El. revert out H.
+    induction l as [|q l IH]; intros out H; inversion H; subst; constructor; auto.
+  Qed.
+
+  Lemma Forall2_nth {A B} (P : A -> B -> Prop) l l' :
+    Forall2 P l l' -> length l = length l' /\
+    forall i a, nth_error l i = Some a -> exists b, nth_error l' i = Some b /\ P a b.
+  Proof.
+    induction 1 as [|a b l l' Hab H IH]; [split; [reflexivity|intros [|i] a H; discriminate]|].
+    destruct IH as [Hl IH]. split; [cbn; lia|].
+    intros [|i] a' Hi; cbn in Hi |- *.
+    - injection Hi as <-. exists b. auto.
+    - apply IH. exact Hi.
+  Qed.
+
+  Lemma sources_index f ev kw ps out :
+    sources f ev kw ps = Some out ->
+    length out = length ps /\
+    forall i p, nth_error ps i = Some p ->
+      exists r, nth_error out i = Some r /\ per_source f ev kw p = Some r.
+  Proof.
+    intros H. apply sources_per_source in H. apply Forall2_nth in H. destruct H as [Hl H].
+    split; [lia|exact H].
+  Qed.
+
+  (* the result of a position does not depend on the other positions or on where it
+     stands in the list *)
+  Lemma sources_independent f ev kw ps ps' out out' i j p :
+    sources f ev kw ps = Some out -> sources f ev kw ps' = Some out' ->
+    nth_error ps i = Some p -> nth_error ps' j = Some p ->
+    nth_error out i = nth_error out' j.
+  Proof.
+    intros H H' Hi Hj.
+    destruct (sources_index _ _ _ _ _ H) as [_ K]. destruct (sources_index _ _ _ _ _ H') as [_ K'].
+    destruct (K i p Hi) as (r & -> & Hr). destruct (K' j p Hj) as (r' & -> & Hr'). congruence.
+  Qed.
+
+  Lemma sources_some_iff f ev kw ps :
+    (exists out, sources f ev kw ps = Some out) <->
+    ps <> [] /\ (forall p, In p ps -> pos_ok ev p = true /\ per_source f ev kw p <> None).
+  Proof.
+    rewrite sources_char. destruct ps as [|p0 ps].
+    - split; [intros [out H]; discriminate|intros [H _]; congruence].
+    - remember (p0 :: ps) as l eqn:El. split.
+      + intros [out H]. split; [subst; discriminate|].
+        destruct (forallb (pos_ok ev) l) eqn:Ef; [|discriminate].
+        intros p Hp. split; [eapply forallb_forall in Ef; eauto|].
+        apply all_some_Forall2 in H. clear El Ef. revert out H.
+        induction l as [|q l IH]; intros out H; [destruct Hp|].
+        inversion H as [|? r ? out' H1 H2]; subst. destruct Hp as [->|Hp]; [congruence|eauto].
+      + intros [_ H].
+        assert (Ef : forallb (pos_ok ev) l = true) by (apply forallb_forall; intros p Hp; apply H; exact Hp).
+        rewrite Ef. clear El Ef. induction l as [|q l IH]; [exists []; reflexivity|].
+        cbn [map all_some]. destruct (H q (or_introl eq_refl)) as [_ Hq].
+        destruct (per_source f ev kw q) as [r|]; [|congruence].
+        destruct IH as [out ->]; [intros p Hp; apply H; right; exact Hp|]. eexists; reflexivity.
+  Qed.
+
+  (* any reordering of the positions reorders the results in the same way *)
+  Lemma sources_permutation f ev kw ps ps' out :
+    Permutation ps ps' -> sources f ev kw ps = Some out ->
+    exists out', sources f ev kw ps' = Some out' /\ Permutation (combine ps out) (combine ps' out').
+  Proof.
+    intros HP H.
+    assert (Hex : exists out', sources f ev kw ps' = Some out').
+    { apply sources_some_iff. assert (Hs : exists o, sources f ev kw ps = Some o) by eauto.
+      apply sources_some_iff in Hs. destruct Hs as [Hne Hall]. split.
+      - intros ->. apply Permutation_sym, Permutation_nil in HP. auto.
+      - intros p Hp. apply Hall. eapply Permutation_in; [apply Permutation_sym; exact HP|exact Hp]. }
+    destruct Hex as [out' H']. exists out'. split; [exact H'|].
+    set (g := fun p => match per_source f ev kw p with Some r => r | None => nan end).
+    assert (G : forall l o, Forall2 (fun p r => per_source f ev kw p = Some r) l o ->
+                            combine l o = map (fun p => (p, g p)) l).
+    { induction 1 as [|p r l o Hpr _ IH]; [reflexivity|]. cbn [combine map]. f_equal; [|exact IH].
+      unfold g. rewrite Hpr. reflexivity. }
+    rewrite (G _ _ (sources_per_source _ _ _ _ _ H)), (G _ _ (sources_per_source _ _ _ _ _ H')).
+    apply Permutation_map. exact HP.
+  Qed.
+
+  (* what "the centroid function on that position's cutout" is: the cutout of the data,
+     the footprint/mask cutout, the cutout of the ORIGINAL error map, the ORIGINAL peak
+     guesses translated to the cutout, the other keywords untouched -- whatever was done
+     for other positions *)
+  Lemma per_source_args f ev kw xp yp :
+    let '(ny, nx) := shape (e_data ev) in
+    let '(fy, fx) := shape (e_foot ev) in
+    let '((y0, y1), (sy0, sy1)) := axis_slices ny fy yp in
+    let '((x0, x1), (sx0, sx1)) := axis_slices nx fx xp in
+    let fm := map (map negb) (crop sy0 sy1 sx0 sx1 (e_foot ev)) in
+    let mc := match e_mask ev with
+              | Some m => map2 (map2 orb) (crop y0 y1 x0 x1 m) fm
+              | None => fm
+              end in
+    let both := match (if cf_xp f then k_xpeak kw else None), (if cf_yp f then k_ypeak kw else None) with
+                | Some _, Some _ => true | _, _ => false end in
+    per_source f ev kw (xp, yp) =
+    if forallb (forallb (fun b => b)) mc then None
+    else Some (call shift nan f
+                 {| a_data := crop y0 y1 x0 x1 (e_data ev);
+                    a_mask := mc;
+                    a_error := if cf_err f then option_map (crop y0 y1 x0 x1) (k_error kw) else None;
+                    a_xpeak := if both then option_map (fun a => (a - inject_Z x0)%Q) (k_xpeak kw) else None;
+                    a_ypeak := if both then option_map (fun b => (b - inject_Z y0)%Q) (k_ypeak kw) else None;
+                    a_other := k_other kw |} (x0, y0)).
+  Proof.
+    unfold C17_Model.per_source, prepare.
+    destruct (shape (e_data ev)) as [ny nx]. destruct (shape (e_foot ev)) as [fy fx].
+    destruct (axis_slices ny fy yp) as [[y0 y1] [sy0 sy1]].
+    destruct (axis_slices nx fx xp) as [[x0 x1] [sx0 sx1]].
+    cbv zeta. destruct (forallb _ _); [reflexivity|].
+    unfold filter_kwargs. cbn [k_error k_xpeak k_ypeak k_other].
+    destruct (cf_err f), (cf_xp f), (cf_yp f), (k_xpeak kw), (k_ypeak kw); reflexivity.
+  Qed.
+
+  (* the loop before the repair agrees with the repaired one when there is nothing to
+     carry: no error map and no peak guesses reach the centroid function *)
+  Lemma prepare_nothing_carried ev (kw : kwargs) p a off kw' :
+    k_error kw = None -> k_xpeak kw = None -> k_ypeak kw = None ->
+    prepare ev kw p = Some (a, off, kw') -> kw' = kw.
+  Proof.
+    destruct kw as [e xpk ypk o]. cbn [k_error k_xpeak k_ypeak]. intros -> -> ->.
+    unfold prepare. destruct p as [xp yp].
+    destruct (shape (e_data ev)) as [ny nx]. destruct (shape (e_foot ev)) as [fy fx].
+    destruct (axis_slices ny fy yp) as [[y0 y1] [sy0 sy1]].
+    destruct (axis_slices nx fx xp) as [[x0 x1] [sx0 sx1]].
+    cbv zeta. destruct (forallb _ _); [discriminate|]. cbn. intros [= _ _ <-]. reflexivity.
+  Qed.
+
+  Lemma loop_unrepaired_nothing_carried f ev (kw : kwargs) ps :
+    k_error kw = None -> k_xpeak kw = None -> k_ypeak kw = None ->
+    loop shift nan true f ev kw ps = loop shift nan false f ev kw ps.
+  Proof.
+    intros He Hx Hy. induction ps as [|p ps IH]; [reflexivity|]. cbn [loop].
+    destruct (prepare ev kw p) as [[[a off] kw']|] eqn:Ep; [|reflexivity].
+    rewrite (prepare_nothing_carried _ _ _ _ _ _ He Hx Hy Ep), IH. reflexivity.
+  Qed.
+
+  Lemma sources_unrepaired_agrees f ev kw ps :
+    k_error (filter_kwargs f kw) = None -> k_xpeak (filter_kwargs f kw) = None ->
+    k_ypeak (filter_kwargs f kw) = None ->
+    sources_unrepaired f ev kw ps = sources f ev kw ps.
+  Proof.
+    intros He Hx Hy. unfold C17_Model.sources_unrepaired, C17_Model.sources, sources_gen.
+    destruct ps as [|p ps]; [reflexivity|]. destruct (forallb _ _); [|reflexivity].
+    apply loop_unrepaired_nothing_carried; assumption.
+  Qed.
+End SourcesProofs.
+
+(* cutouts: pixel (j, i) of the cutout is pixel (y0 + j, x0 + i) of the image *)
+Lemma nth_firstn' {A} (d : A) n : forall i l, (i < n)%nat -> nth i (firstn n l) d = nth i l d.
+Proof.
+  induction n as [|n IH]; intros i l Hi; [lia|].
+  destruct l as [|a l]; [destruct i; reflexivity|]. destruct i as [|i]; [reflexivity|].
+  cbn [firstn nth]. apply IH. lia.
+Qed.
+Lemma nth_skipn' {A} (d : A) k : forall i l, nth i (skipn k l) d = nth (k + i) l d.
+Proof.
+  induction k as [|k IH]; intros i l; [reflexivity|].
+  destruct l as [|a l]; [destruct i; reflexivity|]. cbn [skipn Nat.add nth]. apply IH.
+Qed.
+Lemma slice_nth {A} (d : A) lo hi l i :
+  (i < Z.to_nat (hi - lo))%nat -> nth i (slice lo hi l) d = nth (Z.to_nat lo + i) l d.
+Proof. intros Hi. unfold slice. rewrite nth_firstn' by exact Hi. apply nth_skipn'. Qed.
+
+Lemma crop_nth {A} (d : A) y0 y1 x0 x1 (im : img A) j i :
+  (j < Z.to_nat (y1 - y0))%nat -> (i < Z.to_nat (x1 - x0))%nat ->
+  (Z.to_nat y0 + j < length im)%nat ->
+  nth i (nth j (crop y0 y1 x0 x1 im) []) d = nth (Z.to_nat x0 + i) (nth (Z.to_nat y0 + j) im []) d.
+Proof.
+  intros Hj Hi Hlen. unfold crop.
+  rewrite (map_nth' _ _ []).
+  - rewrite slice_nth by assumption. rewrite (slice_nth [] y0 y1 im j) by assumption. reflexivity.
+  - unfold slice. rewrite firstn_length, skipn_length. lia.
+Qed.
+
+(* ------------------------------------------------------------------ *)
+(* centroid_quadratic ignores the values of masked pixels (any lstsq)   *)
+(* ------------------------------------------------------------------ *)
+Lemma work_masked_values_ignored data data' m ny nx :
+  rect ny nx data -> rect ny nx data' -> rect ny nx m ->
+  (forall y x, (y < ny)%nat -> (x < nx)%nat -> pixm (Some m) y x = false ->
+               pixd data y x = pixd data' y x) ->
+  work data (Some m) = work data' (Some m).
+Proof.
+  intros [Hl Hr] [Hl' Hr'] [Ml Mr] H. cbn [work].
+  apply (list_ext []); [rewrite !map2_length; lia|].
+  intros y Hy. rewrite map2_length in Hy.
+  rewrite !(map2_nth _ _ _ _ [] []) by lia.
+  apply (list_ext None); [rewrite !map2_length, Hr, Hr' by lia; reflexivity|].
+  intros x Hx. rewrite map2_length, Hr, Mr in Hx by lia.
+  rewrite !(map2_nth _ _ _ _ None false) by (rewrite ?Hr, ?Hr', ?Mr by lia; lia).
+  specialize (H y x). unfold pixm, pixd in H.
+  destruct (nth x (nth y m []) false); [reflexivity|]. apply H; [lia|lia|reflexivity].
+Qed.
+
+Lemma rect_shape {A} ny nx (a b : img A) : rect ny nx a -> rect ny nx b -> shape a = shape b.
+Proof.
+  intros [Ha Ra] [Hb Rb]. unfold shape, zlen. rewrite Ha, Hb. f_equal.
+  destruct a as [|r a], b as [|s b]; cbn in Ha, Hb; try lia.
+  cbn [hd]. specialize (Ra O). specialize (Rb O). cbn in Ra, Rb. rewrite Ra, Rb by lia. reflexivity.
+Qed.
+
+Lemma quad_pre_masked_values_ignored data data' m ny nx xpeak ypeak fitbox search :
+  rect ny nx data -> rect ny nx data' -> rect ny nx m ->
+  (forall y x, (y < ny)%nat -> (x < nx)%nat -> pixm (Some m) y x = false ->
+               pixd data y x = pixd data' y x) ->
+  quad_pre data (Some m) xpeak ypeak fitbox search = quad_pre data' (Some m) xpeak ypeak fitbox search.
+Proof.
+  intros Hd Hd' Hm H. unfold quad_pre.
+  rewrite (rect_shape ny nx data data' Hd Hd').
+  rewrite (work_masked_values_ignored data data' m ny nx Hd Hd' Hm H).
+  rewrite (same_shape_rect ny nx data m Hd Hm), (same_shape_rect ny nx data' m Hd' Hm).
+  reflexivity.
+Qed.
+
+Lemma quadratic_masked_values_ignored fit data data' m ny nx xpeak ypeak fitbox search :
+  rect ny nx data -> rect ny nx data' -> rect ny nx m ->
+  (forall y x, (y < ny)%nat -> (x < nx)%nat -> pixm (Some m) y x = false ->
+               pixd data y x = pixd data' y x) ->
+  quadratic fit data (Some m) xpeak ypeak fitbox search
+  = quadratic fit data' (Some m) xpeak ypeak fitbox search.
+Proof.
+  intros Hd Hd' Hm H. unfold quadratic.
+  rewrite (quad_pre_masked_values_ignored data data' m ny nx) by assumption.
+  rewrite (rect_shape ny nx data data' Hd Hd'). reflexivity.
+Qed.
+
+(* ------------------------------------------------------------------ *)
+(* centroid_quadratic: the vertex formula (exact rationals)             *)
+(* ------------------------------------------------------------------ *)
+From Coq Require Import Qfield Lqa.
+Local Open Scope Q_scope.
+Definition quad_poly (c00 : Q) (c : coef) (x y : Q) : Q :=
+  let '(c10, c01, c11, c20, c02) := c in
+  c00 + c10 * x + c01 * y + c11 * x * y + c20 * x * x + c02 * y * y.
+Definition grad_x (c : coef) (x y : Q) : Q :=
+  let '(c10, c01, c11, c20, c02) := c in c10 + 2 * c20 * x + c11 * y.
+Definition grad_y (c : coef) (x y : Q) : Q :=
+  let '(c10, c01, c11, c20, c02) := c in c01 + c11 * x + 2 * c02 * y.
+Definition critical (c : coef) (x y : Q) : Prop := grad_x c x y == 0 /\ grad_y c x y == 0.
+(* Hessian [[2 c20, c11], [c11, 2 c02]] negative definite *)
+Definition negdef (c : coef) : Prop :=
+  let '(c10, c01, c11, c20, c02) := c in c20 < 0 /\ 0 < 4 * c20 * c02 - c11 * c11.
+Definition vertex_x (c : coef) : Q := qxnum c / qdet c.
+Definition vertex_y (c : coef) : Q := qynum c / qdet c.
+
+Lemma Qle_bool_false a b : Qle_bool a b = false <-> b < a.
+Proof.
+  split; intros H.
+  - apply Qnot_le_lt. intros H'. apply Qle_bool_iff in H'. congruence.
+  - destruct (Qle_bool a b) eqn:E; [|reflexivity]. apply Qle_bool_iff in E. lra.
+Qed.
+Lemma Qlt_bool_iff a b : Qlt_bool a b = true <-> a < b.
+Proof. unfold Qlt_bool. rewrite negb_true_iff. apply Qle_bool_false. Qed.
+Lemma Qlt_bool_false a b : Qlt_bool a b = false <-> b <= a.
+Proof. unfold Qlt_bool. rewrite negb_false_iff. apply Qle_bool_iff. Qed.
+
+Lemma negdef_c02 c10 c01 c11 c20 c02 : negdef (c10, c01, c11, c20, c02) -> c02 < 0.
+Proof. cbn. intros [H1 H2]. nra. Qed.
+
+Lemma no_maximum_iff c : no_maximum c = false <-> negdef c.
+Proof.
+  destruct c as [[[[c10 c01] c11] c20] c02]. unfold no_maximum, qdet, negdef.
+  rewrite !orb_false_iff, !andb_false_iff, Qle_bool_false, !Qlt_bool_false, !Qle_bool_false.
+  split.
+  - intros [[Hd H1] H2]. split; [|lra]. nra.
+  - intros [H1 H2]. assert (c02 < 0) by nra. repeat split; try lra. 
+Qed.
+
+Lemma Qdiv_shift a b d : ~ d == 0 -> a * d == b -> a == b / d.
+Proof. intros Hd H. rewrite <- H. field. exact Hd. Qed.
+
+Lemma vertex_critical c : negdef c -> critical c (vertex_x c) (vertex_y c).
+Proof.
+  destruct c as [[[[c10 c01] c11] c20] c02]. unfold negdef, critical, vertex_x, vertex_y, grad_x, grad_y, qxnum, qynum, qdet.
+  intros [H1 H2]. split; field; lra.
+Qed.
+
+Lemma critical_unique c x y : negdef c -> critical c x y -> x == vertex_x c /\ y == vertex_y c.
+Proof.
+  destruct c as [[[[c10 c01] c11] c20] c02]. unfold negdef, critical, vertex_x, vertex_y, grad_x, grad_y, qxnum, qynum, qdet.
+  intros [H1 H2] [G1 G2].
+  assert (Hd : ~ 4 * c20 * c02 - c11 * c11 == 0) by lra.
+  split; apply Qdiv_shift; try exact Hd.
+  - assert (E : x * (4 * c20 * c02 - c11 * c11) - (c01 * c11 - 2 * c02 * c10)
+                == 2 * c02 * (c10 + 2 * c20 * x + c11 * y) - c11 * (c01 + c11 * x + 2 * c02 * y)) by ring.
+    rewrite G1, G2 in E. lra.
+  - assert (E : y * (4 * c20 * c02 - c11 * c11) - (c10 * c11 - 2 * c20 * c01)
+                == 2 * c20 * (c01 + c11 * x + 2 * c02 * y) - c11 * (c10 + 2 * c20 * x + c11 * y)) by ring.
+    rewrite G1, G2 in E. lra.
+Qed.
+
+(* the value at (x, y) relative to a critical point (xm, ym) *)
+Lemma poly_around_critical c00 c xm ym x y :
+  critical c xm ym ->
+  let '(c10, c01, c11, c20, c02) := c in
+  quad_poly c00 c x y - quad_poly c00 c xm ym
+  == c20 * (x - xm) * (x - xm) + c11 * (x - xm) * (y - ym) + c02 * (y - ym) * (y - ym).
+Proof.
+  destruct c as [[[[c10 c01] c11] c20] c02]. unfold critical, grad_x, grad_y, quad_poly. intros [G1 G2].
+  assert (E : c00 + c10 * x + c01 * y + c11 * x * y + c20 * x * x + c02 * y * y
+              - (c00 + c10 * xm + c01 * ym + c11 * xm * ym + c20 * xm * xm + c02 * ym * ym)
+              == (c10 + 2 * c20 * xm + c11 * ym) * (x - xm) + (c01 + c11 * xm + 2 * c02 * ym) * (y - ym)
+                 + (c20 * (x - xm) * (x - xm) + c11 * (x - xm) * (y - ym) + c02 * (y - ym) * (y - ym))) by ring.
+  rewrite E, G1, G2. ring.
+Qed.
+
+Lemma Qsq_nonneg q : 0 <= q * q.
+Proof.
+  destruct (Qlt_le_dec q 0) as [H|H].
+  - setoid_replace (q * q) with ((- q) * (- q)) by ring. apply Qmult_le_0_compat; lra.
+  - apply Qmult_le_0_compat; lra.
+Qed.
+Lemma Qsq_zero q : q * q == 0 -> q == 0.
+Proof.
+  intros H. destruct (Qmult_integral _ _ H); assumption.
+Qed.
+
+Lemma negdef_form c20 c11 c02 u v :
+  c20 < 0 -> 0 < 4 * c20 * c02 - c11 * c11 ->
+  c20 * u * u + c11 * u * v + c02 * v * v <= 0 /\
+  (c20 * u * u + c11 * u * v + c02 * v * v == 0 -> u == 0 /\ v == 0).
+Proof.
+  intros H1 H2.
+  assert (E : 4 * c20 * (c20 * u * u + c11 * u * v + c02 * v * v)
+              == (2 * c20 * u + c11 * v) * (2 * c20 * u + c11 * v) + (4 * c20 * c02 - c11 * c11) * (v * v)) by ring.
+  pose proof (Qsq_nonneg (2 * c20 * u + c11 * v)) as S1.
+  pose proof (Qsq_nonneg v) as S2.
+  assert (S3 : 0 <= (4 * c20 * c02 - c11 * c11) * (v * v)) by (apply Qmult_le_0_compat; lra).
+  split.
+  { apply Qnot_lt_le. intros Hpos.
+    assert (0 < (- c20) * (c20 * u * u + c11 * u * v + c02 * v * v)) by (apply Qmult_lt_0_compat; lra).
+    lra. }
+  intros Z0. rewrite Z0 in E.
+  assert (S3z : (4 * c20 * c02 - c11 * c11) * (v * v) == 0) by lra.
+  assert (V : v * v == 0) by (destruct (Qmult_integral _ _ S3z); [lra|assumption]).
+  assert (V0 : v == 0) by (apply Qsq_zero; exact V).
+  assert (U : (2 * c20 * u + c11 * v) * (2 * c20 * u + c11 * v) == 0) by lra.
+  apply Qsq_zero in U. rewrite V0 in U.
+  split; [|exact V0].
+  assert (U' : c20 * u == 0) by lra.
+  destruct (Qmult_integral _ _ U'); [lra|assumption].
+Qed.
+
+Lemma vertex_maximum c00 c x y :
+  negdef c ->
+  quad_poly c00 c x y <= quad_poly c00 c (vertex_x c) (vertex_y c) /\
+  (quad_poly c00 c x y == quad_poly c00 c (vertex_x c) (vertex_y c) -> x == vertex_x c /\ y == vertex_y c).
+Proof.
+  intros Hn. pose proof (poly_around_critical c00 c _ _ x y (vertex_critical c Hn)) as E.
+  destruct c as [[[[c10 c01] c11] c20] c02]. destruct Hn as [H1 H2].
+  destruct (negdef_form c20 c11 c02 (x - vertex_x (c10, c01, c11, c20, c02)) (y - vertex_y (c10, c01, c11, c20, c02)) H1 H2) as [F1 F2].
+  split; [lra|]. intros Heq. rewrite Heq in E.
+  destruct F2 as [U V]; [lra|]. split; lra.
+Qed.
+
+Definition inside (c : coef) (nx ny : Z) : Prop :=
+  0 < vertex_x c /\ vertex_x c < inject_Z (nx - 1) /\ 0 < vertex_y c /\ vertex_y c < inject_Z (ny - 1).
+
+Lemma quad_post_iff c nx ny v :
+  quad_post c nx ny = Some v <-> negdef c /\ inside c nx ny /\ v = (vertex_x c, vertex_y c).
+Proof.
+  unfold quad_post, inside, vertex_x, vertex_y. cbv zeta.
+  set (xm := qxnum c / qdet c). set (ym := qynum c / qdet c).
+  destruct (no_maximum c) eqn:En.
+  - split; [discriminate|]. intros [Hn _]. apply no_maximum_iff in Hn. congruence.
+  - apply no_maximum_iff in En.
+    destruct (Qlt_bool 0 xm && Qlt_bool xm (inject_Z (nx - 1)) && Qlt_bool 0 ym
+              && Qlt_bool ym (inject_Z (ny - 1))) eqn:Ec.
+    + rewrite !andb_true_iff, !Qlt_bool_iff in Ec. split.
+      * intros [= <-]. split; [exact En|]. split; [tauto|reflexivity].
+      * intros (_ & _ & ->). reflexivity.
+    + split; [discriminate|]. intros (_ & (I1 & I2 & I3 & I4) & _).
+      apply Qlt_bool_iff in I1, I2, I3, I4. rewrite I1, I2, I3, I4 in Ec. discriminate.
+Qed.
+
+Lemma quad_post_vertex c nx ny :
+  negdef c -> inside c nx ny -> quad_post c nx ny = Some (vertex_x c, vertex_y c).
+Proof. intros. apply quad_post_iff. auto. Qed.
+
+(* ---- exactly quadratic data ---- *)
+Definition coef_eq (a b : coef) : Prop :=
+  let '(a10, a01, a11, a20, a02) := a in let '(b10, b01, b11, b20, b02) := b in
+  a10 == b10 /\ a01 == b01 /\ a11 == b11 /\ a20 == b20 /\ a02 == b02.
+Definition on_quadric (k : Q) (c : coef) (pts : list pt) : Prop :=
+  forall x y v, In (x, y, v) pts -> inject_Z v == quad_poly k c (inject_Z x) (inject_Z y).
+(* the sum of squared residuals minimised by numpy.linalg.lstsq *)
+Fixpoint resid (k : Q) (c : coef) (pts : list pt) : Q :=
+  match pts with
+  | [] => 0
+  | (x, y, v) :: r =>
+      (inject_Z v - quad_poly k c (inject_Z x) (inject_Z y))
+      * (inject_Z v - quad_poly k c (inject_Z x) (inject_Z y)) + resid k c r
+  end.
+Definition least_squares (sol : coef) (pts : list pt) : Prop :=
+  exists k, forall k' c', resid k sol pts <= resid k' c' pts.
+(* six points of a 3x3 block of pixels: enough to determine a quadric *)
+Definition has_stencil (pts : list pt) : Prop :=
+  exists x0 y0 v00 v10 v20 v01 v02 v11,
+    In (x0, y0, v00) pts /\ In ((x0 + 1)%Z, y0, v10) pts /\ In ((x0 + 2)%Z, y0, v20) pts /\
+    In (x0, (y0 + 1)%Z, v01) pts /\ In (x0, (y0 + 2)%Z, v02) pts /\ In ((x0 + 1)%Z, (y0 + 1)%Z, v11) pts.
+
+Lemma resid_nonneg k c pts : 0 <= resid k c pts.
+Proof.
+  induction pts as [|[[x y] v] r IH]; cbn [resid]; [lra|].
+  pose proof (Qsq_nonneg (inject_Z v - quad_poly k c (inject_Z x) (inject_Z y))). lra.
+Qed.
+
+Lemma resid_zero_iff k c pts : resid k c pts <= 0 <-> on_quadric k c pts.
+Proof.
+  induction pts as [|[[x y] v] r IH]; cbn [resid].
+  - split; [intros _ x y v []|lra].
+  - pose proof (Qsq_nonneg (inject_Z v - quad_poly k c (inject_Z x) (inject_Z y))) as S.
+    pose proof (resid_nonneg k c r) as N. split.
+    + intros H x' y' v' [[= <- <- <-]|Hin].
+      * assert (Z0 : (inject_Z v - quad_poly k c (inject_Z x) (inject_Z y))
+                     * (inject_Z v - quad_poly k c (inject_Z x) (inject_Z y)) == 0) by lra.
+        apply Qsq_zero in Z0. lra.
+      * apply IH; [lra|exact Hin].
+    + intros H.
+      assert (H0 : inject_Z v == quad_poly k c (inject_Z x) (inject_Z y)) by (apply H; left; reflexivity).
+      assert (Hr : resid k c r <= 0) by (apply IH; intros x' y' v' Hin; apply H; right; exact Hin).
+      setoid_replace (inject_Z v - quad_poly k c (inject_Z x) (inject_Z y)) with 0 by lra. lra.
+Qed.
+
+Lemma quadric_unisolvent k c k' c' pts :
+  has_stencil pts -> on_quadric k c pts -> on_quadric k' c' pts -> coef_eq c c'.
+Proof.
+  intros (x0 & y0 & v00 & v10 & v20 & v01 & v02 & v11 & I00 & I10 & I20 & I01 & I02 & I11) H H'.
+  pose proof (H _ _ _ I00) as A00. pose proof (H' _ _ _ I00) as B00.
+  pose proof (H _ _ _ I10) as A10. pose proof (H' _ _ _ I10) as B10.
+  pose proof (H _ _ _ I20) as A20. pose proof (H' _ _ _ I20) as B20.
+  pose proof (H _ _ _ I01) as A01. pose proof (H' _ _ _ I01) as B01.
+  pose proof (H _ _ _ I02) as A02. pose proof (H' _ _ _ I02) as B02.
+  pose proof (H _ _ _ I11) as A11. pose proof (H' _ _ _ I11) as B11.
+  rewrite ?inject_Z_plus in *.
+  set (X := inject_Z x0) in *. set (Y := inject_Z y0) in *.
+  change (inject_Z 1) with 1 in *. change (inject_Z 2) with 2 in *.
+  destruct c as [[[[a10 a01] a11] a20] a02]. destruct c' as [[[[b10 b01] b11] b20] b02].
+  unfold quad_poly in *. unfold coef_eq.
+  assert (E20 : a20 == b20) by lra.
+  assert (E02 : a02 == b02) by lra.
+  assert (E11 : a11 == b11) by lra.
+  rewrite E20, E02, E11 in *.
+  assert (E10 : a10 == b10) by lra.
+  assert (E01 : a01 == b01) by lra.
+  repeat split; try assumption; reflexivity.
+Qed.
+
+Lemma negdef_compat c c' : coef_eq c c' -> negdef c -> negdef c'.
+Proof.
+  destruct c as [[[[a10 a01] a11] a20] a02]. destruct c' as [[[[b10 b01] b11] b20] b02].
+  unfold coef_eq, negdef. intros (E1 & E2 & E3 & E4 & E5). rewrite E3, E4, E5. auto.
+Qed.
+Lemma vertex_compat c c' :
+  coef_eq c c' -> vertex_x c' == vertex_x c /\ vertex_y c' == vertex_y c.
+Proof.
+  destruct c as [[[[a10 a01] a11] a20] a02]. destruct c' as [[[[b10 b01] b11] b20] b02].
+  unfold coef_eq, vertex_x, vertex_y, qxnum, qynum, qdet. intros (E1 & E2 & E3 & E4 & E5).
+  rewrite E1, E2, E3, E4, E5. split; reflexivity.
+Qed.
+Lemma inside_compat c c' nx ny : coef_eq c c' -> inside c nx ny -> inside c' nx ny.
+Proof.
+  intros E. destruct (vertex_compat c c' E) as [Ex Ey]. unfold inside. rewrite Ex, Ey. auto.
+Qed.
+
+Lemma least_squares_exact sol k c pts :
+  has_stencil pts -> on_quadric k c pts -> least_squares sol pts -> coef_eq c sol.
+Proof.
+  intros Hs Hq [k0 Hmin]. specialize (Hmin k c).
+  apply resid_zero_iff in Hq.
+  assert (H0 : on_quadric k0 sol pts) by (apply resid_zero_iff; lra).
+  apply resid_zero_iff in Hq. eapply quadric_unisolvent; eauto.
+Qed.
+
+Section QuadraticProofs.
+  Variable fit : list pt -> coef.
+
+  (* whatever centroid_quadratic returns is: the border pixel holding the maximum, or
+     the unique critical point (strict maximum) of the fitted polynomial, which then is
+     negative definite and has its vertex strictly inside the image *)
+  Lemma quadratic_value_cases data mask xpeak ypeak fitbox search x y :
+    quadratic fit data mask xpeak ypeak fitbox search = QRVal x y ->
+    (exists xi yi, quad_pre data mask xpeak ypeak fitbox search = QEdge xi yi /\
+                   x = inject_Z xi /\ y = inject_Z yi) \/
+    (exists x0 x1 y0 y1 pts,
+        quad_pre data mask xpeak ypeak fitbox search = QFit x0 x1 y0 y1 pts /\
+        negdef (fit pts) /\ inside (fit pts) (snd (shape data)) (fst (shape data)) /\
+        x = vertex_x (fit pts) /\ y = vertex_y (fit pts)).
+  Proof.
+    unfold quadratic. destruct (quad_pre data mask xpeak ypeak fitbox search) as [|xi yi| |x0 x1 y0 y1 pts] eqn:E;
+      try discriminate.
+    - intros [= <- <-]. left. exists xi, yi. auto.
+    - destruct (quad_post _ _ _) as [[x' y']|] eqn:Ep; [|discriminate]. intros [= <- <-].
+      apply quad_post_iff in Ep. destruct Ep as (Hn & Hi & [= -> ->]).
+      right. exists x0, x1, y0, y1, pts. auto.
+  Qed.
+
+  Lemma quadratic_vertex_fit data mask xpeak ypeak fitbox search x0 x1 y0 y1 pts :
+    quad_pre data mask xpeak ypeak fitbox search = QFit x0 x1 y0 y1 pts ->
+    negdef (fit pts) -> inside (fit pts) (snd (shape data)) (fst (shape data)) ->
+    quadratic fit data mask xpeak ypeak fitbox search = QRVal (vertex_x (fit pts)) (vertex_y (fit pts)).
+  Proof.
+    intros E Hn Hi. unfold quadratic. rewrite E, (quad_post_vertex _ _ _ Hn Hi). reflexivity.
+  Qed.
+
+  (* exactly quadratic peak: the fitted points lie on a negative definite quadric whose
+     vertex is strictly inside the image; lstsq is assumed to return a least-squares
+     solution *)
+  Lemma quadratic_exact data mask xpeak ypeak fitbox search x0 x1 y0 y1 pts k c :
+    quad_pre data mask xpeak ypeak fitbox search = QFit x0 x1 y0 y1 pts ->
+    has_stencil pts -> on_quadric k c pts -> negdef c ->
+    inside c (snd (shape data)) (fst (shape data)) ->
+    least_squares (fit pts) pts ->
+    exists x y, quadratic fit data mask xpeak ypeak fitbox search = QRVal x y /\
+                x == vertex_x c /\ y == vertex_y c /\ critical c x y.
+  Proof.
+    intros E Hs Hq Hn Hi Hls.
+    pose proof (least_squares_exact _ _ _ _ Hs Hq Hls) as Ec.
+    exists (vertex_x (fit pts)), (vertex_y (fit pts)).
+    destruct (vertex_compat _ _ Ec) as [Ex Ey].
+    split; [|split; [exact Ex|split; [exact Ey|]]].
+    - apply (quadratic_vertex_fit _ _ _ _ _ _ x0 x1 y0 y1); [exact E|eapply negdef_compat; eauto|eapply inside_compat; eauto].
+    - pose proof (vertex_critical c Hn) as [G1 G2].
+      destruct c as [[[[c10 c01] c11] c20] c02]. unfold critical, grad_x, grad_y in *.
+      rewrite Ex, Ey. auto.
+  Qed.
+End QuadraticProofs.
+
+(* everything about the vertex formula in one statement *)
+Lemma quadratic_vertex_full c00 c :
+  negdef c ->
+  critical c (vertex_x c) (vertex_y c) /\
+  (forall x y, critical c x y -> x == vertex_x c /\ y == vertex_y c) /\
+  (forall x y, quad_poly c00 c x y <= quad_poly c00 c (vertex_x c) (vertex_y c)) /\
+  (forall x y, quad_poly c00 c x y == quad_poly c00 c (vertex_x c) (vertex_y c) ->
+               x == vertex_x c /\ y == vertex_y c).
+Proof.
+  intros Hn. split; [apply vertex_critical; exact Hn|].
+  split; [intros x y; apply critical_unique; exact Hn|].
+  split; intros x y; apply (vertex_maximum c00 c x y Hn).
+Qed.
+
+Local Close Scope Q_scope.
+Local Open Scope Z_scope.
+
+(* ------------------------------------------------------------------ *)
+(* the loop before the repair (keyword dictionary updated in place)     *)
+(* ------------------------------------------------------------------ *)
+Definition ones6 : img (option Z) := repeat (repeat (Some 1) 6) 6.
+Definition foot3 : img bool := repeat (repeat true 3) 3.
+Definition err6 : img Z :=
+  [[1;2;3;4;5;6]; [2;3;4;5;6;7]; [3;4;5;6;7;8]; [4;5;6;7;8;9]; [5;6;7;8;9;1]; [6;7;8;9;1;2]].
+Definition two_pos : list (Q * Q) := [(1 # 1, 1 # 1); (4 # 1, 4 # 1)]%Q.
+
+(* error map: the second source receives a cutout of the first source's cutout *)
+Lemma unrepaired_error_witness :
+  exists (f : @cfun Z unit fres) ev kw ps out i p r,
+    sources_unrepaired fshift None f ev kw ps = Some out /\
+    nth_error ps i = Some p /\
+    per_source fshift None f ev kw p = Some r /\
+    nth_error out i <> Some r.
+Proof.
+  exists cf_probe, (mk_env ones6 foot3 None), (mk_kwargs (Some err6) None None tt), two_pos.
+  eexists. exists 1%nat. eexists. eexists.
+  split; [vm_compute; reflexivity|]. split; [reflexivity|]. split; [vm_compute; reflexivity|].
+  vm_compute. discriminate.
+Qed.
+
+(* xpeak / ypeak: the offsets of all previous cutouts accumulate *)
+Lemma unrepaired_peak_witness :
+  exists (f : @cfun Z unit fres) ev kw ps out i p r,
+    sources_unrepaired fshift None f ev kw ps = Some out /\
+    nth_error ps i = Some p /\
+    per_source fshift None f ev kw p = Some r /\
+    nth_error out i <> Some r.
+Proof.
+  exists cf_probe, (mk_env ones6 foot3 None), (mk_kwargs None (Some (3 # 1)%Q) (Some (3 # 1)%Q) tt),
+    [(2 # 1, 2 # 1); (4 # 1, 4 # 1)]%Q.
+  eexists. exists 1%nat. eexists. eexists.
+  split; [vm_compute; reflexivity|]. split; [reflexivity|]. split; [vm_compute; reflexivity|].
+  vm_compute. discriminate.
+Qed.
+
+(* the repaired loop on the same inputs *)
+Lemma repaired_error_example :
+  exists out, sources fshift None cf_probe (mk_env ones6 foot3 None)
+                      (mk_kwargs (Some err6) None None tt) two_pos = Some out /\
+              Forall2 (fun p r => per_source fshift None cf_probe (mk_env ones6 foot3 None)
+                                             (mk_kwargs (Some err6) None None tt) p = Some r)
+                      two_pos out /\
+              Forall (fun r => r <> None) out.
+Proof.
+  eexists. split; [vm_compute; reflexivity|]. split.
+  - repeat constructor.
+  - repeat constructor; discriminate.
+Qed.
